@@ -54,6 +54,9 @@ def drain_loops(prog):
     return res
 
 
+_DRAIN = []
+
+
 def adoption_sites(m, f):
     """Adoption sites in a strategy function:
     ddmin: taskgen.update(X); hierarchical: rebinding of the current input
@@ -65,15 +68,29 @@ def adoption_sites(m, f):
                 isinstance(c.func.value, ast.Name) and \
                 c.func.value.id == 'taskgen':
             sites.append(('update', c))
+    # hierarchical: the current input is the variable handed to Producer as
+    # its ``original``; an assignment to it inside a result loop is an
+    # adoption
+    cur = set()
+    for c in ast.walk(f):
+        if isinstance(c, ast.Call) and call_name(c) == 'Producer':
+            a = c.args[2] if len(c.args) > 2 else kw(c, 'original')
+            if isinstance(a, ast.Name):
+                cur.add(a.id)
     for st in ast.walk(f):
         if isinstance(st, ast.Assign) and len(st.targets) == 1 and isinstance(
-                st.targets[0], ast.Name) and any(
-                    isinstance(x, ast.Attribute) and x.attr == 'exprs'
-                    and isinstance(x.value, ast.Name)
-                    and x.value.id in ('task', 'result')
-                    for x in ast.walk(st.value)):
-            # exprs = nodes.reduplicate(task.exprs)
-            sites.append(('rebind', st))
+                st.targets[0], ast.Name) and st.targets[0].id in cur:
+            lp = getattr(st, '_parent', None)
+            inloop = False
+            while lp is not None and lp is not f:
+                if isinstance(lp, ast.For) and isinstance(
+                        lp.iter, (ast.Call, ast.Name)) and 'imap' in unparse(
+                            lp.iter) or (isinstance(lp, ast.For) and any(
+                                lp is l_ for (_, _, l_, _) in _DRAIN)):
+                    inloop = True
+                lp = getattr(lp, '_parent', None)
+            if inloop:
+                sites.append(('rebind', st))
     return sites
 
 
@@ -432,9 +449,13 @@ def result_constructions(prog):
     for q, f in dm.funcs.items():
         for c in calls_in(f):
             if call_name(c) == 'Result':
-                if len(c.args) != len(fields):
+                vals = list(c.args) + [None] * (len(fields) - len(c.args))
+                for k_ in c.keywords:
+                    if k_.arg in fields:
+                        vals[fields.index(k_.arg)] = k_.value
+                if len(c.args) > len(fields) or any(v is None for v in vals):
                     raise AnalysisError(f'Result(...) arity at {dm.loc(c)}')
-                res.append((dm, f, c, c.args[si], c.args[ei]))
+                res.append((dm, f, c, vals[si], vals[ei]))
     hm = prog.mod('strategy_hierarchical')
     tfields = None
     for name, vals in hm.globals.items():
@@ -443,12 +464,21 @@ def result_constructions(prog):
     if not tfields or 'exprs' not in tfields:
         raise AnalysisError('strategy_hierarchical.Task not recognised')
     tei = tfields.index('exprs')
-    f = hm.func('Consumer.check')
-    for t in ast.walk(f):
-        if isinstance(t, ast.Tuple) and len(t.elts) == 2 and isinstance(
-                t.elts[1], ast.Call) and call_name(t.elts[1]) == 'Task':
-            tc = t.elts[1]
-            res.append((hm, f, t, t.elts[0], tc.args[tei]))
+    hm.func('Consumer.check')
+    for q, f in hm.funcs.items():
+        if not q.startswith('Consumer.'):
+            continue
+        for t in ast.walk(f):
+            if isinstance(t, ast.Tuple) and len(t.elts) == 2 and isinstance(
+                    t.elts[1], ast.Call) and call_name(t.elts[1]) == 'Task':
+                tc = t.elts[1]
+                vals = list(tc.args) + [None] * (len(tfields) - len(tc.args))
+                for k_ in tc.keywords:
+                    if k_.arg in tfields:
+                        vals[tfields.index(k_.arg)] = k_.value
+                if vals[tei] is None:
+                    raise AnalysisError(f'Task(...) arity at {hm.loc(tc)}')
+                res.append((hm, f, t, t.elts[0], vals[tei]))
     return res
 
 
@@ -458,7 +488,7 @@ def rule_r4(chk, prog, rid='C05.R4'):
              'returned true; failures carry no list; the base comes from '
              'the task')
     cons = result_constructions(prog)
-    chk.floor(rid, 'result constructions', len(cons), 6)
+    chk.floor(rid, 'result constructions', len(cons), 4)
     nsucc = 0
     for (m, f, node, succ, ex) in cons:
         where = f'{m.name}.{f._qualname}'
